@@ -29,8 +29,20 @@ impl RangeCase {
 }
 
 /// weights that are stored and printed only: palette + any f32 bit pattern in [0, 1]
+/// The only f32 in (0,1] whose shortest decimal text parses to a different f32 when the text is
+/// first parsed as f64 and then narrowed (double rounding); found by a sweep of all 1,065,353,216
+/// bit patterns with std only, re-verified at start-up by `witness_self_check`.
+pub const DOUBLE_ROUNDING_WITNESS: u32 = 0x15ae_43fd;
+pub fn witness_self_check() {
+    let w = f32::from_bits(DOUBLE_ROUNDING_WITNESS);
+    let s = format!("{}", w);
+    assert_eq!(s.parse::<f32>().unwrap().to_bits(), DOUBLE_ROUNDING_WITNESS);
+    assert_ne!((s.parse::<f64>().unwrap() as f32).to_bits(), DOUBLE_ROUNDING_WITNESS, "not a double-rounding witness any more");
+}
+
 pub fn weight_any() -> impl Strategy<Value = f32> {
     prop_oneof![
+        1 => Just(f32::from_bits(DOUBLE_ROUNDING_WITNESS)),
         4 => Just(1.0f32),
         2 => Just(0.5f32),
         1 => Just(0.0f32),
@@ -94,9 +106,17 @@ pub fn range_strategy(max_partial: usize) -> impl Strategy<Value = RangeCase> {
         1 => any::<u32>().prop_map(|x| x & 0x1ff_ffff),
         2 => (0usize..25).prop_map(|r| 1u32 << r),
         1 => (0usize..12).prop_map(|h| 0b11u32 << (1 + 2 * h)),
+        1 => Just(0x1ff_ffffu32),
     ];
-    (row_mask, proptest::collection::vec(cell, 169), [weight_any(), weight_any(), weight_any()], proptest::collection::vec((0u8..169, any::<u32>()), 0..=max_partial.max(1)), any::<bool>()).prop_map(move |(mask, cells, w, partials, same)| {
+    (row_mask, proptest::collection::vec(cell, 169), [weight_any(), weight_any(), weight_any()], proptest::collection::vec((0u8..169, any::<u32>()), 0..=max_partial.max(1)), any::<bool>(), 0u8..24).prop_map(move |(mask, cells, w, partials, same, special)| {
         let w = if same { [w[0], w[0], w[1]] } else { w };
+        // special shapes: every selected cell complete at one weight (whole rows, the full range
+        // of all 1326 combos when every row is selected), optionally minus the partial cells
+        let cells = match special {
+            0 => vec![1u8; 169],
+            1 => cells.iter().map(|c| if *c == 0 { 1 } else { *c }).collect(),
+            _ => cells,
+        };
         RangeCase::from_map(&build_range(mask, &cells, w, &partials, max_partial))
     })
 }
@@ -192,7 +212,7 @@ pub fn check_token(c: &TokenCase) -> CheckResult {
 }
 
 pub fn token_weights(tier: Tier) -> Vec<f32> {
-    let mut v = vec![1.0, 0.5, 0.0, 0.1];
+    let mut v = vec![1.0, 0.5, 0.0, 0.1, f32::from_bits(DOUBLE_ROUNDING_WITNESS)];
     if tier == Tier::Thorough {
         v.extend_from_slice(&[0.25, 0.333, f32::from_bits(1), f32::from_bits(0x3f7f_ffff), 1.0e-7, 0.7, 0.30000001, f32::MIN_POSITIVE]);
     }
@@ -230,7 +250,8 @@ pub fn row_sweep(max_len: usize) -> Vec<(usize, u64)> {
 }
 
 pub fn run(ctx: &mut Ctx) {
-    ctx.rule = "ranges by row-pattern construction over the 25 rows / 169 rank-pair cells: each cell absent / complete at one of three weights, a random subset of rows active, up to 6 (thorough 10) cells made partial with mixed weights; weights from a palette (so equal-weight neighbours are common) and arbitrary f32 bit patterns in [0,1] incl. subnormals (no -0.0); exhaustive: every absent/weight-a/weight-b pattern of every row with <= 7 cells (thorough: every row, 3^13 pocket patterns and 3^12..3 per high card and kind). Oracle: to_string().parse() is Ok, equal, and every weight bit-identical. Tokens: every well-formed HandRangeToken::new(kind, w) over all 3,796 token ASTs x weights, text must parse back to an equal token. Non-trivial (ranges): text has a merged token and a weight != 1, or a leftover combo; distinct by text.".into();
+    witness_self_check();
+    ctx.rule = "ranges by row-pattern construction over the 25 rows / 169 rank-pair cells: each cell absent / complete at one of three weights, a random subset of rows active, up to 6 (thorough 10) cells made partial with mixed weights; weights from a palette (so equal-weight neighbours are common) and arbitrary f32 bit patterns in [0,1] incl. subnormals (no -0.0) and the one f32 in (0,1] that is sensitive to double rounding through f64 (0x15ae43fd); exhaustive: every absent/weight-a/weight-b pattern of every row with <= 7 cells (thorough: every row, 3^13 pocket patterns and 3^12..3 per high card and kind). Oracle: to_string().parse() is Ok, equal, and every weight bit-identical. Tokens: every well-formed HandRangeToken::new(kind, w) over all 3,796 token ASTs x weights, text must parse back to an equal token. Non-trivial (ranges): text has a merged token and a weight != 1, or a leftover combo; distinct by text.".into();
     ctx.assumptions = vec!["-0.0 is excluded from the weight domain: the parser cannot produce it and it prints as '-0'".into(), "NaN weights are outside [0,1]".into()];
     let mp = ctx.tier.pick(6, 10);
     let cases = ctx.tier.pick(20_000, 300_000);
